@@ -43,8 +43,10 @@ THEOREMS = [
     'Nb.C05.hist_wf',
     'Nb.C05.hist_data_spec',
     'Nb.C05.values_history_independent',
+    'Nb.C05.values_cache_counterexample',
     'Nb.C05.values_any_history',
     'Nb.C05.reorient_history_world',
+    'Nb.C05.canonical_history_world',
 ]
 PENDING_FINDINGS = []     # 'reorient:sequence-ornt-dim_info-typeerror' was repaired by fix: 5e1197c5 (fixed entry in known_findings.json)
 
@@ -67,14 +69,18 @@ ASSUMPTIONS = [
     'correspondence asserts on every case that the real result does not depend on them',
     'default axis labels, the identity-orientation literal, the constants of center_trans and the ornt column of '
     'the dim_info remap are read from the working tree on every run (Generated/C05.lean, gen_consts_ok); the attribute '
-    'names the three operations touch on the image are read from the AST on every run and proved to contain no '
-    'cache accessor (gen_value_source_ok) - a syntactic tie, the behavioural one is the correspondence + oracle',
-    'image state (Model/C05.lean ImgSt): the data object and the get_fdata cache are modelled as lists of ORIGINAL '
-    'element numbers; the only in-place edit modelled is the C-order reversal of an array returned by get_fdata; the '
-    'numerical effect of a cast to float16/32/64 is NOT modelled (a cache entry stands for "element k rendered in dt") '
-    '- that a result voxel holds exactly the data-object value is checked by the oracle with exact value comparison '
-    'on values float32/float64 cannot hold; the model reads the cache state through the private attribute '
-    '_fdata_cache (dtype, identity with dataobj) for the correspondence',
+    'names the three operations touch on the image are read from the AST on every run and classified in Lean '
+    '(srcOfAttrs: any cache accessor -> Src.cache, reads dataobj -> Src.dataobj; gen_value_source_ok) - a syntactic tie, the behavioural one is the correspondence + oracle',
+    'image state (Model/C05.lean ImgSt): generic in the value type; WHERE an operation reads its voxels is the '
+    'parameter Src (dataobj | cache) - the theorems are stated for the Src regenerated from the AST (reorientSrc / '
+    'slicerSrc via srcOfAttrs over the attribute names as_reoriented / slicer.__getitem__ touch; proved = dataobj by '
+    'gen_value_source_ok), values_cache_counterexample refutes the property for Src.cache; in-place edits of arrays '
+    'returned by get_fdata are ARBITRARY functions in the model (the correspondence exercises reversal and rotation); '
+    'the cast to float16/32/64 is a parameter (every theorem holds for every cast; castInt = integer round-to-nearest-'
+    'even only in the counterexample); the driver instantiates values = original element numbers, cast = identity - '
+    'that a result voxel holds exactly the data-object value is checked by the oracle with exact value comparison on '
+    'values float32/float64 cannot hold; the cache state is observed through the private attribute _fdata_cache '
+    '(dtype, identity with dataobj) for the correspondence',
     'Basic/PySlice is a specification of CPython slice semantics (validated by the C06 check against slice.indices)',
     'fileslice.canonical_slicers is modelled in Model/C06.lean (re-used)',
 ]
@@ -94,7 +100,7 @@ RULE = ('streams: slicer exhaustive single-axis slice triples (start/stop in [-n
         'from a file (memory-mapped) | from a compressed file | proxy with int16 slope/intercept scaling | proxy '
         're-wrapped with another affine), dtype x values that float32 / float64 cannot hold (odd integers above 2**24 '
         '/ 2**53 / 2**63, top of the dtype range, large negative, non-dyadic fractions), and the calls made before '
-        '(1-3 of get_fdata(dtype=f2|f4|f8, caching=fill|unchanged) [+ in-place reversal of the returned array], '
+        '(1-3 of get_fdata(dtype=f2|f4|f8, caching=fill|unchanged) [+ in-place reversal or rotation of the returned array], '
         'uncache()), crossed systematically with all four operations; chains also call get_fdata/uncache on the '
         'intermediate images. A case is non-trivial unless the slicer is all-full-slices / the orientation is '
         'the identity; distinct by (op, shape, affine, index/orientation).')
@@ -115,7 +121,7 @@ OPT_KEYS = ('codes', 'dt', 'swap', 'odt', 'src', 'scl', 'vals', 'hist', 'hfrom',
 #         'neg' large negative | 'frac' non-dyadic fractions,
 #   hist = the calls made on the image BEFORE the operation under test (state of the object): list of
 #         'u' (uncache) | 'g<2|4|8><f|u><e|->' = get_fdata(dtype=float16/32/64, caching='fill'/'unchanged'),
-#         'e' = then reverse the returned array in place (C order)
+#         'e' = then reverse the returned array in place (C order), 'o' = then rotate it by one (np.roll -1)
 #   mm = 0: the file is loaded with mmap=False (src 'file'),
 #   hfrom = the header handed to the constructor comes from an image of ANOTHER class / shape / dtype,
 #   ict = spelling of the slicer index: 'bare' (a single slice, not in a tuple) | 'np' (NumPy integers as bounds),
@@ -123,7 +129,7 @@ OPT_KEYS = ('codes', 'dt', 'swap', 'odt', 'src', 'scl', 'vals', 'hist', 'hfrom',
 #   sdim = dim_info (freq, phase, slice) of the image that is SLICED (labels must stay on their axes)
 SRCS = ('arr', 'fmap', 'file', 'gz')
 VALS = ('small', 'b24', 'b53', 'hi', 'neg', 'frac')
-HIST_TOKENS = ('g8f-', 'g4f-', 'g2f-', 'g8fe', 'g4fe', 'g8u-', 'g4u-', 'g8ue', 'g4ue', 'u')
+HIST_TOKENS = ('g8f-', 'g4f-', 'g2f-', 'g8fe', 'g4fe', 'g8u-', 'g4u-', 'g8ue', 'g4ue', 'u', 'g8fo', 'g4fo', 'g4uo')
 
 
 # ------------------------------------------------------------------ constants regenerated from the source
@@ -538,6 +544,8 @@ def apply_hist(img, hist):
             a = img.get_fdata(dtype=fd[tok[1]], caching={'f': 'fill', 'u': 'unchanged'}[tok[2]])
         if tok[3] == 'e':
             a[...] = a.ravel()[::-1].reshape(a.shape).copy()      # new[k] = old[n-1-k] in C order
+        elif tok[3] == 'o':
+            a[...] = np.roll(a.ravel(), -1).reshape(a.shape)      # new[k] = old[(k+1) % n] in C order
         elif tok[3] != '-':
             raise ValueError(tok)
 
@@ -782,7 +790,7 @@ def impl(case):
                     cur = cur.as_reoriented(t)
                     case.extra['targets'].append((st[1], ''.join(ort.aff2axcodes(cur.affine))))
                 elif st[0] == 'h':         # a (non-editing) call on the intermediate image
-                    if st[1].endswith('e'):
+                    if st[1][-1] in 'eo':
                         raise ValueError(st)
                     apply_hist(cur, [st[1]])
                 else:
@@ -1437,7 +1445,7 @@ def rand_chain(rng, shape, hist_steps=False):
     for _ in range(rng.choice([2, 2, 3, 3, 4])):
         r = rng.random()
         if hist_steps and rng.random() < 0.25:      # a call on the intermediate image between two operations
-            steps.append(['h', rng.choice([t for t in HIST_TOKENS if not t.endswith('e')])])
+            steps.append(['h', rng.choice([t for t in HIST_TOKENS if t[-1] not in 'eo'])])
         if r < 0.35:
             o = [list(x) for x in rng.choice(ALL48)]
             steps.append(['r', o])
